@@ -134,6 +134,7 @@ def obligations(prog, src, tier, seed):
 
     # ---- the TLS wrapper and stream constructor (two cooperating sites: the pre-check in
     #      TlsTransportWrapper::call and the `expect` in TlsStream::new); shared with C12 --------------
+    obs.append(ob_C13.send_request_obligation(prog, "c17_send_request_any_version", True))
     import ob_C12
     for ob in ob_C12.obligations(prog, src, tier, seed):
         if ob["name"] == "c12_tls_server_name_for_every_host":
